@@ -92,11 +92,44 @@ func (ex *Exec) callWith(fr *Frame, st *State, c *ssa.CallCommon, fnv Value, arg
 		return Value{}
 	}
 	if fn == nil {
-		ex.warn("call through an unknown function value in %s: whole heap havocked", fname)
-		ws := newWriteSet()
-		ws.setAll("call through function value")
-		ex.havoc(st, ws, "fnvalue", fr)
-		return ex.freshResults(st, sig, "fnvalue")
+		// a call through a function-valued parameter or variable: program-point assertions may name it
+		// (<package>.<variable>), arg0, arg1, ... are the arguments
+		vname := ""
+		if u, ok := c.Value.(*ssa.UnOp); ok && u.Op.String() == "*" {
+			if a, ok := u.X.(*ssa.Alloc); ok {
+				vname = a.Comment
+			}
+		} else if p, ok := c.Value.(*ssa.Parameter); ok {
+			vname = p.Name()
+		}
+		ord := 0
+		if vname != "" && fr.fn != nil && fr.fn.Pkg != nil {
+			vname = fr.fn.Pkg.Pkg.Name() + "." + vname
+			ord = fr.nextOrd(vname, in)
+			ex.pointArgs = args
+			ex.pointAsserts(fr, st, vname, ord, fname, in, true)
+			ex.pointArgs = nil
+		}
+		var res Value
+		if mods := ex.callbackFrame(fr, c.Value); mods != nil {
+			// assumed frame of whatever callback was handed in (listed in the evidence)
+			env := ex.frameEnv(fr, st.clone(), fr.entry)
+			nw := Fresh("wm.cb", IntSort)
+			ex.assume(st.pc, Ge(nw, st.wm))
+			st.wm = nw
+			ex.havocTargets(st, mods, env, fr, "callback of "+fname)
+			res = ex.freshResults(st, sig, "fnvalue")
+		} else {
+			ex.warn("call through an unknown function value in %s: whole heap havocked", fname)
+			ws := newWriteSet()
+			ws.setAll("call through function value")
+			ex.havoc(st, ws, "fnvalue", fr)
+			res = ex.freshResults(st, sig, "fnvalue")
+		}
+		if vname != "" {
+			ex.pointAsserts(fr, st, vname, ord, fname, in, false)
+		}
+		return res
 	}
 	_ = pos
 	return ex.callFunc(fr, st, fn, bindings, args, in, fname)
@@ -114,13 +147,21 @@ func (ex *Exec) inStack(fr *Frame, fn *ssa.Function) bool {
 func (ex *Exec) callFunc(fr *Frame, st *State, fn *ssa.Function, bindings []Value, args []Value, in ssa.Instruction, fname string) Value {
 	callee := shortName(fn.String())
 	ord := fr.nextOrd(callee, in)
+	ex.pointArgs = args
+	ex.pointAsserts(fr, st, callee, ord, fname, in, true)
+	ex.pointArgs = nil
 	var res Value
 	sig := fn.Signature
 	c := ex.eng.contractFor(fn)
 	switch {
 	case c != nil && !c.Inline:
 		ex.callBindings, ex.callFn = bindings, fn
+		saved := ex.inClosureCall
+		if fn.Parent() != nil {
+			ex.inClosureCall = true
+		}
 		res = ex.applyContract(fr, st, c, paramNames(fn), sig, args, fmt.Sprintf("%s#%d", callee, ord), fname, in)
+		ex.inClosureCall = saved
 		ex.callBindings, ex.callFn = nil, nil
 	case externModel(fn) != nil:
 		res = externModel(fn)(ex, st, fn, args)
@@ -156,7 +197,7 @@ func (ex *Exec) callFunc(fr *Frame, st *State, fn *ssa.Function, bindings []Valu
 		ex.havoc(st, ws, "call."+fn.Name(), fr)
 		res = ex.freshResults(st, sig, fn.Name())
 	}
-	ex.pointAsserts(fr, st, callee, ord, fname, in)
+	ex.pointAsserts(fr, st, callee, ord, fname, in, false)
 	return res
 }
 
@@ -182,13 +223,16 @@ func paramNames(fn *ssa.Function) []string {
 	return out
 }
 
-func (ex *Exec) pointAsserts(fr *Frame, st *State, callee string, ord int, fname string, in ssa.Instruction) {
+func (ex *Exec) pointAsserts(fr *Frame, st *State, callee string, ord int, fname string, in ssa.Instruction, before bool) {
 	if !fr.top || fr.contract == nil {
 		return
 	}
 	ex.paramsCurrent = true
 	defer func() { ex.paramsCurrent = false }()
 	defer func() {
+		if before {
+			return
+		}
 		for j, ps := range fr.contract.PointSets {
 			if ps.Callee != callee || (ps.Ord > 0 && ps.Ord != ord) {
 				continue
@@ -199,11 +243,15 @@ func (ex *Exec) pointAsserts(fr *Frame, st *State, callee string, ord int, fname
 		}
 	}()
 	for j, pa := range fr.contract.Asserts {
-		if pa.Callee != callee || (pa.Ord > 0 && pa.Ord != ord) {
+		if pa.Callee != callee || (pa.Ord > 0 && pa.Ord != ord) || pa.Before != before {
 			continue
 		}
 		ex.assertHit[j] = true
-		label := fmt.Sprintf("after-%s#%d:%s", callee, ord, clauseLabel(pa.Clause, j))
+		when := "after"
+		if before {
+			when = "before"
+		}
+		label := fmt.Sprintf("%s-%s#%d:%s", when, callee, ord, clauseLabel(pa.Clause, j))
 		g, err := ex.compileBool(fr, st, fr.entry, pa.Clause.E, true)
 		if err != nil {
 			ex.bindingError(fname, "assert", label, pa.Clause, err)
@@ -381,6 +429,35 @@ func (ex *Exec) applyContract(fr *Frame, st *State, c *FuncContract, pnames []st
 		}
 	}
 	post := &Env{ex: ex, vars: vars, st: st, old: pre, pkg: pkg, results: results, resTup: sig.Results(), cells: cells}
+	// objects reached from a result that the contract declares fresh as well (fresh(result.Records), ...): what the
+	// pre-state heap held at their (then unallocated) references says nothing about them either
+	for _, fe := range freshPaths(c) {
+		func() {
+			defer func() {
+				if r := recover(); r != nil {
+					if _, ok := r.(compileErr); ok {
+						return
+					}
+					panic(r)
+				}
+			}()
+			v := post.compile(fe, 0)
+			switch t := v.T.Underlying().(type) {
+			case *types.Slice:
+				for _, k := range elemKeys(t.Elem()) {
+					srt := keySortReg[k]
+					st.heap.m[k] = Store(st.heap.Get(k, srt), v.C[0], Fresh(k+".new", srt.Elem))
+				}
+			case *types.Pointer:
+				if len(v.C) == 1 {
+					for _, k := range refKeys(t.Elem()) {
+						srt := keySortReg[k]
+						st.heap.m[k] = Store(st.heap.Get(k, srt), v.C[0], Fresh(k+".new", srt.Elem))
+					}
+				}
+			}
+		}()
+	}
 	for _, e := range c.Ensures {
 		g, err := post.boolExpr(e.E, false)
 		if err != nil {
@@ -575,7 +652,10 @@ func (ex *Exec) invoke(fr *Frame, st *State, c *ssa.CallCommon, recv Value, args
 	mname := c.Method.FullName()
 	callee := shortName(mname)
 	ord := fr.nextOrd(callee, in)
-	defer ex.pointAsserts(fr, st, callee, ord, fname, in)
+	ex.pointArgs = all0(recv, args)
+	ex.pointAsserts(fr, st, callee, ord, fname, in, true)
+	ex.pointArgs = nil
+	defer ex.pointAsserts(fr, st, callee, ord, fname, in, false)
 	all := append([]Value{recv}, args...)
 	if ic := ex.eng.contractForInvoke(c); ic != nil {
 		names := []string{"recv"}
@@ -918,6 +998,44 @@ func declaresFresh(c *FuncContract, i int, n int) bool {
 	return found
 }
 
+// freshPaths: the arguments of fresh(...) in the ensures clauses that are paths below a result (not a bare result), in
+// order of appearance.
+func freshPaths(c *FuncContract) []*Expr {
+	var out []*Expr
+	var rooted func(e *Expr) bool
+	rooted = func(e *Expr) bool {
+		for e != nil {
+			switch e.Kind {
+			case "ident":
+				return strings.HasPrefix(e.Name, "result")
+			case "sel", "index":
+				e = e.X
+			default:
+				return false
+			}
+		}
+		return false
+	}
+	var walk func(e *Expr)
+	walk = func(e *Expr) {
+		if e == nil {
+			return
+		}
+		if e.Kind == "call" && e.Name == "fresh" && len(e.Args) == 1 && e.Args[0].Kind != "ident" && rooted(e.Args[0]) {
+			out = append(out, e.Args[0])
+			return
+		}
+		walk(e.X)
+		for _, a := range e.Args {
+			walk(a)
+		}
+	}
+	for _, cl := range c.Ensures {
+		walk(cl.E)
+	}
+	return out
+}
+
 // terminationAtCall: under a `terminates` contract a recursive call must arrive with a smaller function-level measure;
 // callees under contract that do not carry `terminates` themselves are recorded as assumed to terminate.
 func (ex *Exec) terminationAtCall(fr *Frame, st *State, c *FuncContract, env *Env, site, fname string, pos token.Pos) {
@@ -1023,4 +1141,27 @@ func (fr *Frame) nextOrd(callee string, in ssa.Instruction) int {
 	}
 	fr.callOrd[callee]++
 	return fr.srcCnt[callee] + fr.callOrd[callee]
+}
+
+func all0(recv Value, args []Value) []Value { return append([]Value{recv}, args...) }
+
+// callbackFrame: the assumed frame (callback <parameter> modifies ...) of a call through a function-valued parameter of
+// the function under verification.
+func (ex *Exec) callbackFrame(fr *Frame, v ssa.Value) []ModTarget {
+	if fr == nil || fr.contract == nil || fr.contract.Callbacks == nil {
+		return nil
+	}
+	return fr.contract.Callbacks[fnValueName(v)]
+}
+
+func fnValueName(v ssa.Value) string {
+	if u, ok := v.(*ssa.UnOp); ok && u.Op.String() == "*" {
+		if a, ok := u.X.(*ssa.Alloc); ok {
+			return a.Comment
+		}
+	}
+	if p, ok := v.(*ssa.Parameter); ok {
+		return p.Name()
+	}
+	return ""
 }
